@@ -1,6 +1,8 @@
 package main
 
 import (
+	"path/filepath"
+	"encoding/json"
 	"fmt"
 	"go/token"
 	"go/types"
@@ -21,6 +23,9 @@ type Program struct {
 	SPkgs map[string]*ssa.Package // by import path (all, incl. deps)
 	Specs *Specs
 	Funcs map[string]*ssa.Function // by key, module functions only
+	// names of the locals of functions with loop invariants, in declaration order, as recorded on the
+	// tree the contracts were written for (contracts/locals.json); nil if absent
+	Locals map[string][]string
 }
 
 // LoadProgram loads the given package patterns of the repository with the
@@ -100,6 +105,9 @@ func LoadProgram(repo string, patterns []string, overlay map[string][]byte, veri
 		return nil, err
 	}
 	p.Specs = sp
+	if b, err := os.ReadFile(filepath.Join(verifDir, "contracts", "locals.json")); err == nil {
+		json.Unmarshal(b, &p.Locals)
+	}
 	// functions outside the module that carry a contract to be *verified* (e.g. container/heap
 	// instantiated for a heap.Interface implementation of the module): their SSA bodies are
 	// available because dependencies are loaded with syntax
@@ -221,4 +229,50 @@ func loopHeaders(fn *ssa.Function) ([]*ssa.BasicBlock, map[*ssa.BasicBlock]map[*
 	}
 	sort.Slice(hs, func(i, j int) bool { return hs[i].Index < hs[j].Index })
 	return hs, bodies
+}
+
+// localNames lists the named locals of a function in declaration order (the naming scheme of frameCtx:
+// a repeated name gets the suffix _2, _3 ...).
+func localNames(fn *ssa.Function) []string {
+	seen := map[string]int{}
+	var out []string
+	for _, b := range fn.Blocks {
+		for _, in := range b.Instrs {
+			al, ok := in.(*ssa.Alloc)
+			if !ok || al.Comment == "" {
+				continue
+			}
+			name := al.Comment
+			seen[name]++
+			if seen[name] > 1 {
+				name = fmt.Sprintf("%s_%d", name, seen[name])
+			}
+			out = append(out, name)
+		}
+	}
+	return out
+}
+
+func writeLocals(repo, verifDir string) int {
+	P, err := LoadProgram(repo, []string{"./...", "container/heap"}, nil, verifDir)
+	if err != nil {
+		fmt.Fprintln(os.Stderr, err)
+		return 2
+	}
+	out := map[string][]string{}
+	for _, fs := range P.Specs.Funcs {
+		if fs.Assumed || len(fs.Loops) == 0 {
+			continue
+		}
+		if fn := P.Funcs[fs.Key]; fn != nil {
+			out[fs.Key] = localNames(fn)
+		}
+	}
+	b, _ := json.MarshalIndent(out, "", " ")
+	if err := os.WriteFile(filepath.Join(verifDir, "contracts", "locals.json"), append(b, '\n'), 0o644); err != nil {
+		fmt.Fprintln(os.Stderr, err)
+		return 2
+	}
+	fmt.Printf("locals of %d functions recorded\n", len(out))
+	return 0
 }
